@@ -45,6 +45,15 @@ impl Backend for Typescript {
     ) -> Result<GeneratedModule, GeneratorError> {
         if let Some(module_ref) = tlds.first().and_then(|tld| tld.get_module_header()) {
             let module = module_ref.borrow();
+            #[cfg(rasn_verif)]
+            crate::verif::emit("enter_module", || {
+                format!(
+                    "\"backend\":\"typescript\",\"module\":{},\"tagging\":\"{:?}\",\"extensibility\":\"{:?}\"",
+                    crate::verif::s(&module.name),
+                    module.tagging_environment,
+                    module.extensibility_environment
+                )
+            });
             let namespace = to_jer_identifier(&module.name);
             let imports = module
                 .imports
